@@ -28,9 +28,10 @@ VARIABLES tid,      \* which trace
           gain,     \* RVI: gain after the last sweep
           hist,     \* PVI: all iterates V_0 .. V_iter
           perms,    \* SAVI: set of permutations seen
+          lastp,    \* SAVI: the permutations of the last two sweeps
           verdict
 
-vars == <<tid, i, V, iter, budget, stopped, pend, gain, hist, perms, verdict>>
+vars == <<tid, i, V, iter, budget, stopped, pend, gain, hist, perms, lastp, verdict>>
 
 T  == Traces[tid]
 M  == T.m
@@ -44,13 +45,13 @@ Init ==
   /\ budget = -1 /\ stopped = FALSE /\ pend = FALSE
   /\ gain = Traces[tid].gain0
   /\ hist = <<Traces[tid].start>>
-  /\ perms = {}
+  /\ perms = {} /\ lastp = <<>>
   /\ verdict = "running"
 
 Reject(clause) ==
   /\ verdict' = "rejected"
   /\ PrintT(<<"REJECT", tid, i, clause>>)
-  /\ UNCHANGED <<tid, i, V, iter, budget, stopped, pend, gain, hist, perms>>
+  /\ UNCHANGED <<tid, i, V, iter, budget, stopped, pend, gain, hist, perms, lastp>>
 
 Drift(what) == PrintT(<<"DRIFT", tid, what>>)
 
@@ -67,7 +68,7 @@ Begin ==
        THEN Reject("begin: a fresh solver does not start from the problem's own initial values")
      ELSE /\ budget' = Ev.k /\ stopped' = FALSE /\ pend' = FALSE
           /\ i' = i + 1
-          /\ UNCHANGED <<tid, V, iter, gain, hist, perms, verdict>>
+          /\ UNCHANGED <<tid, V, iter, gain, hist, perms, lastp, verdict>>
 
 (* ---------------------------------------------------------------- sweep *)
 SweepValuesOK(W) ==
@@ -95,6 +96,8 @@ Sweep ==
        THEN Reject("sweep: the update order is not a permutation of all states")
      ELSE IF T.kind = "SAVI" /\ Len(Ev.permref) > 0 /\ Ev.perm # Ev.permref
        THEN Reject("sweep: update order not reproducible from random_seed")
+     ELSE IF T.kind = "SAVI" /\ T.shuffle /\ M.ns >= 7 /\ Len(lastp) = 2 /\ lastp[1] = Ev.perm /\ lastp[2] = Ev.perm
+       THEN Reject("sweep: the same permutation in three consecutive sweeps (not drawn afresh for each sweep)")
      ELSE IF ~SweepValuesOK(Ev.v)
        THEN Reject(CASE T.kind = "SAVI" -> "sweep: values are not the block Gauss-Seidel backup in the documented order"
                      [] T.kind = "RVI"  -> "sweep: values are not the Bellman backup up to a common constant"
@@ -107,6 +110,7 @@ Sweep ==
                      ELSE BelowThreshold(T.kind, M, Ev.c, T.eps)
           /\ hist' = IF T.kind = "PVI" THEN Append(hist, Ev.v) ELSE hist
           /\ perms' = IF T.kind = "SAVI" THEN perms \cup {Ev.perm} ELSE perms
+          /\ lastp' = IF T.kind = "SAVI" THEN (IF Len(lastp) = 2 THEN <<lastp[2], Ev.perm>> ELSE Append(lastp, Ev.perm)) ELSE lastp
           /\ gain' = IF T.kind = "RVI" THEN Ev.g ELSE gain
           /\ (T.kind = "RVI" /\ (~Ev.gok \/ SubtractedNum(M, Ev.v, V) # gain * Den(M) \/ Ev.g # Ev.v[M.ns])) =>
                 Drift("RVI gain bookkeeping differs from the model (subtract previous gain; gain := last state's value)")
@@ -121,7 +125,7 @@ Converged ==
      ELSE IF Ev.it # iter THEN Reject("converged: wrong iteration")
      ELSE /\ stopped' = TRUE /\ pend' = FALSE
           /\ i' = i + 1
-          /\ UNCHANGED <<tid, V, iter, budget, gain, hist, perms, verdict>>
+          /\ UNCHANGED <<tid, V, iter, budget, gain, hist, perms, lastp, verdict>>
 
 (* ------------------------------------------------------------------ end *)
 ToSet(seq) == {seq[k] : k \in 1..Len(seq)}
@@ -177,14 +181,14 @@ End ==
        THEN Reject("end: converged, but (V_n - V_(n-period))/period is not within epsilon/period of the optimal gain")
      ELSE /\ budget' = -1 /\ stopped' = FALSE
           /\ i' = i + 1
-          /\ UNCHANGED <<tid, V, iter, pend, gain, hist, perms, verdict>>
+          /\ UNCHANGED <<tid, V, iter, pend, gain, hist, perms, lastp, verdict>>
 
 Accept ==
   /\ verdict = "running" /\ i = Len(T.ev) + 1
   /\ IF T.complete /\ budget # -1 THEN Reject("trace ended inside a solve() call")
      ELSE /\ verdict' = "accepted"
           /\ PrintT(<<"ACCEPT", tid>>)
-          /\ UNCHANGED <<tid, i, V, iter, budget, stopped, pend, gain, hist, perms>>
+          /\ UNCHANGED <<tid, i, V, iter, budget, stopped, pend, gain, hist, perms, lastp>>
 
 Next == Begin \/ Sweep \/ Converged \/ End \/ Accept
 Spec == Init /\ [][Next]_vars
